@@ -110,13 +110,14 @@ where T: Stream
     fn poll_next(self: Pin<&mut Self>, cx: &mut Context<'_>) -> Poll<Option<Self::Item>> {
         let this = self.project();
 
-        let _guard = this.span.as_ref().map(|s| s.set_local_parent());
+        let guard = this.span.as_ref().map(|s| s.set_local_parent());
         let res = this.inner.poll_next(cx);
 
         match res {
             Poll::Pending => Poll::Pending,
             Poll::Ready(None) => {
-                // finished
+                // finished: submit what was recorded during this poll before the span itself
+                drop(guard);
                 this.span.take();
                 Poll::Ready(None)
             }
@@ -151,13 +152,14 @@ where T: Sink<I>
     fn poll_close(self: Pin<&mut Self>, cx: &mut Context<'_>) -> Poll<Result<(), Self::Error>> {
         let this = self.project();
 
-        let _guard = this.span.as_ref().map(|s| s.set_local_parent());
+        let guard = this.span.as_ref().map(|s| s.set_local_parent());
         let res = this.inner.poll_close(cx);
 
         match res {
             r @ Poll::Pending => r,
             other => {
-                // closed
+                // closed: submit what was recorded during this poll before the span itself
+                drop(guard);
                 this.span.take();
                 other
             }
